@@ -11,7 +11,8 @@ CONSTANTS Families,     \* subset of {"basis", "sweep", "masks", "zerow", "gener
           XIds,         \* abscissa sets used by the fit families
           ZIds,         \* abscissa sets of the zero-weight family (all subsets are enumerated)
           Lays,         \* trace-set layouts
-          Mod           \* 1: every case of the masks / zerow / general / tset families; k > 1: every k-th (quick tier sample)
+          Mod,          \* 1: every case of the masks / zerow / general families; k > 1: every k-th (quick tier sample)
+          TsMod         \* the same for the exact trace-set cases (the inexact ones are always all enumerated)
 VARIABLES c, exp
 
 CoefDom == IF CoefSel = "full" THEN -2..2 ELSE {-1, 0, 2}
@@ -125,11 +126,16 @@ Jump(jk, l) ==
     [] jk = 5 -> [on |-> TRUE, lo |-> I(b), hi |-> I(b + 1), val |-> Q(1, 2)]
     [] jk = 6 -> [on |-> TRUE, lo |-> I(b - 1), hi |-> I(b + 1), val |-> Q(1, 2)]
 TsCoef(ci, k, nc) == Ints(Prefix(CoefPool[((ci + k - 2) % 4) + 1], nc))
-(* weights: all one; one zero-weight point in the first trace; both ends of the last trace  *)
+(* weights: all one; one zero-weight point in the first trace; both ends of the last trace;  *)
+(* 4: weights 1, 2, 3 cyclically with one zero-weight point in the first trace               *)
 TsZero(wv, l) == LET nt == Len(Layout(l))  n == Len(Layout(l)[1]) IN
-                 CASE wv = 1 -> {} [] wv = 2 -> {<<1, 3>>} [] wv = 3 -> {<<nt, 1>>, <<nt, n>>}
+                 CASE wv = 1 -> {} [] wv = 2 -> {<<1, 3>>} [] wv = 3 -> {<<nt, 1>>, <<nt, n>>} [] wv = 4 -> {<<1, 2>>}
+TsWeight(wv, k, i) == IF wv = 4 THEN I(((i + k) % 3) + 1) ELSE One
 
-TsCase(b, nc, l, ci, jk, mm, wv) ==
+(* nz = 0: the positions are exact combinations of the basis (any coefficients, jump, limits); *)
+(* nz = 1: they are not (a +-1 zigzag is added) - the answer is the solution of the normal     *)
+(*         equations; only where the normalised abscissae are quarters or thirds               *)
+TsCase(b, nc, l, ci, jk, mm, wv, nz) ==
   LET xpos == Layout(l)
       nt == Len(xpos)
       a == LayA(l)  bb == LayB(l)
@@ -140,13 +146,14 @@ TsCase(b, nc, l, ci, jk, mm, wv) ==
       co == [k \in 1..nt |-> TsCoef(ci, k, nc)]
       Z == TsZero(wv, l)
       clean == TsEval(t0, co, xpos, t0.jump)
-  IN [t0 EXCEPT !.kind = "tset"] @@
-     [ypos |-> [k \in 1..nt |-> [i \in 1..Len(xpos[k]) |-> IF <<k, i>> \in Z THEN QAdd(clean[k][i], I(7)) ELSE clean[k][i]]],
-      w |-> [k \in 1..nt |-> [i \in 1..Len(xpos[k]) |-> IF <<k, i>> \in Z THEN Zero ELSE One]],
-      gen |-> co]
+  IN t0 @@
+     [ypos |-> [k \in 1..nt |-> [i \in 1..Len(xpos[k]) |->
+                  QAdd(clean[k][i], I((IF <<k, i>> \in Z THEN 7 ELSE 0) + (IF nz = 1 THEN Sgn(i + k) ELSE 0)))]],
+      w |-> [k \in 1..nt |-> [i \in 1..Len(xpos[k]) |-> IF <<k, i>> \in Z THEN Zero ELSE TsWeight(wv, k, i)]],
+      gen |-> co, noisy |-> nz = 1]
 
 TsExpected(t) ==
-  LET co == t.gen
+  LET co == IF t.noisy THEN [k \in 1..Len(t.xpos) |-> Solve(TsProblem(t, k))] ELSE t.gen
       g == TsGrid(t)
   IN [xmin |-> TsXmin(t), xmax |-> TsXmax(t), coeff |-> co,
       yfit |-> [k \in 1..Len(co) |-> FitOutcome(TsProblem(t, k), co[k]).yfit],
@@ -157,12 +164,13 @@ TsExpected(t) ==
 TsSeed(b, nc, l) == [kind |-> "seed", fam |-> "tset", basis |-> b, nc |-> nc, lay |-> l]
 TsStep ==
   /\ c.kind = "seed" /\ c.fam = "tset"
-  /\ \E ci \in 1..2 : \E jk \in 1..6 : \E mm \in 1..3 : \E wv \in 1..3 :
-       LET t == TsCase(c.basis, c.nc, c.lay, ci, jk, mm, wv) IN
-       /\ Keep(3 * ci + 5 * jk + 7 * mm + 11 * wv + 13 * c.nc)
-       /\ \A k \in 1..Len(t.xpos) : WellPosed(TsProblem(t, k))
-       /\ c' = t
-       /\ exp' = TsExpected(t)
+  /\ \E ci \in 1..2 : \E jk \in 1..6 : \E mm \in 1..3 : \E wv \in 1..4 : \E nz \in 0..1 :
+       /\ (nz = 1) => (jk = 1 /\ mm = 1 /\ c.lay \in {1, 2} /\ c.nc <= 3)
+       /\ ((3 * ci + 5 * jk + 7 * mm + 11 * wv + 13 * c.nc) % TsMod = 0) \/ nz = 1
+       /\ LET t == TsCase(c.basis, c.nc, c.lay, ci, jk, mm, wv, nz) IN
+          /\ \A k \in 1..Len(t.xpos) : WellPosed(TsProblem(t, k))
+          /\ c' = t
+          /\ exp' = TsExpected(t)
 
 (* ------------------------------ the graph ------------------------------- *)
 Root == [kind |-> "root"]
@@ -187,6 +195,13 @@ IsPolyBasis == c.kind = "basis" /\ c.basis \in PolyBases
 IsFit == c.kind = "fit"
 IsTset == c.kind = "tset"
 
+(* ---- every number of every case and outcome fits TLC's integers (no NaR anywhere) ---- *)
+ProperAll(ss) == \A k \in 1..Len(ss) : AllProper(ss[k])
+C13_Representable ==
+  /\ IsBasis => AllProper(exp.vals)
+  /\ IsFit => (AllProper(c.y) /\ AllProper(exp.res) /\ AllProper(exp.yfit))
+  /\ IsTset => (ProperAll(c.ypos) /\ ProperAll(exp.coeff) /\ ProperAll(exp.yfit) /\ ProperAll(exp.ygrid) /\ ProperAll(exp.yign)
+                 /\ AllProper(exp.grid) /\ \A k \in 1..Len(c.xpos) : AllProper(TsXvec(c, k, c.jump)))
 (* ---- laws of the bases ---- *)
 C13_ThreeDefinitionsAgree == IsPolyBasis => ThreeDefinitionsAgree(c.basis, c.m, c.x)
 C13_EndpointOne == IsPolyBasis => EndpointOne(c.basis, c.m)
@@ -218,8 +233,8 @@ C13_NoBetterNeighbour ==
      \A j \in 1..c.nc : \A d \in {-1, 1} :
         c.ia[j] => QLt(Zero, Chi2Diff(c, exp.res, [exp.res EXCEPT ![j] = QAdd(@, I(d))]))
 (* ---- laws of the trace set ---- *)
-C13_TsetExact == IsTset => \A k \in 1..Len(c.xpos) :
-                    IsExactCombination(TsProblem(c, k), exp.coeff[k]) /\ IsWLS(TsProblem(c, k), exp.coeff[k])
+C13_TsetExact == (IsTset /\ ~c.noisy) => \A k \in 1..Len(c.xpos) : IsExactCombination(TsProblem(c, k), exp.coeff[k])
+C13_TsetWLS == IsTset => \A k \in 1..Len(c.xpos) : IsWLS(TsProblem(c, k), exp.coeff[k])
 C13_FitThenEvaluate == IsTset => TsEval(c, exp.coeff, c.xpos, c.jump) = exp.yfit
 C13_XNormLaws == IsTset => \A k \in 1..Len(c.xpos) : \A i \in 1..Len(c.xpos[k]) :
                     XNormLaws(c.xpos[k][i], exp.xmin, exp.xmax, c.jump)
